@@ -118,6 +118,24 @@ def misc_programs():
         ("cyclic any-object compared", "fn main() { let a = new { ? }; a.set(\"me\", a); let b = new { ? }; b.set(\"me\", b); println(a == b); }\n"),
         ("cyclic any-object to_json", "fn main() { let a = new { ? }; let b = new { ? }; a.set(\"b\", b); b.set(\"a\", a); println(a.to_json()); }\n"),
         ("cyclic list", "fn main() { let a = new { ? }; let l = [a]; a.set(\"l\", l); println(l.len()); println(l); }\n"),
+        ("thread joined", "fn w(n: int) -> int { n * 2 }\nfn main() { let h = spawn w(2); println(h.join(), h.join()); let j = h.join; println(j()); }\n"),
+        ("thread joined null", "fn w(n: int) { println(n); }\nfn main() { let h = spawn w(2); h.join(); h.join(); println(\"after\"); }\n"),
+        ("thread handle shown", "fn w(n: int) -> [int] { [n] }\nfn main() { let h = spawn w(2); println(h, h == h, h.join); let l = [h, spawn w(3)]; for x in l { println(x.join()); } }\n"),
+        ("thread joined after failure", "fn w(n: int) -> int { throw(\"w failed\"); n }\nfn main() { let h = spawn w(2); println(\"m\"); println(h.join()); println(\"not reached\"); }\n"),
+        ("thread joined in try", "fn w(n: int) -> int { throw(\"w failed\"); n }\nfn main() { let h = spawn w(2); try { println(h.join()); } catch e { println(\"caught\"); } }\n"),
+        ("thread joins thread", "fn leaf(n: int) -> int { n + 1 }\nfn mid(n: int) -> int { let a = spawn leaf(n); let b = spawn leaf(n * 2); a.join() + b.join() }\n"
+                                "fn main() { let m = spawn mid(1); let k = spawn mid(2); println(k.join() + m.join()); }\n"),
+        ("thread deep recursion joined", "fn r(n: int) -> int { r(n + 1) }\nfn main() { let h = spawn r(0); println(h.join()); }\n"),
+        ("thread many", "fn w(n: int) -> int { n }\nfn main() { let hs = [spawn w(0)]; for i in 1..20 { hs.push(spawn w(i)); } let s = 0; for h in hs { s += h.join(); } println(s); }\n"),
+        ("thread never ends joined", "fn w(n: int) -> int { loop { } }\nfn main() { let h = spawn w(1); println(h.join()); }\n"),
+        ("thread handle in global", "let slot: ?{ join: fn() -> int } = none;\nfn w(n: int) -> int { n }\nfn other(n: int) -> int { slot.unwrap().join() + n }\n"
+                                    "fn main() { slot = ?(spawn w(5)); let o = spawn other(1); println(o.join()); }\n"),
+        ("thread joins itself", "let slot: ?{ join: fn() -> int } = none;\nfn w(n: int) -> int { let k = 0; while slot.is_none() && k < 100000 { k += 1; } if slot.is_some() { slot.unwrap().join() } else { n } }\n"
+                                "fn main() { slot = ?(spawn w(5)); println(\"set\"); }\n"),
+        ("thread of function value", "fn w(n: int) -> int { n }\nfn main() { let f = w; spawn f(1); let g = fn(n: int) -> int { n }; spawn g(2); }\n"),
+        ("thread of builtin", "fn main() { spawn println(1); spawn print(2); }\n"),
+        ("thread of host function", "import tag from hosta;\nfn main() { spawn tag(); }\n"),
+        ("thread returning function", "fn mk() -> fn(a: int) -> int { fn(a: int) -> int { a } }\nfn main() { let h = spawn mk(); println(h.join()(1)); }\n"),
         ("spawn arg types", "fn w(l: [int], o: { a: int }, s: str) { println(l, o.a, s); }\nfn main() { spawn w([1], new { a: 1 }, \"s\"); }\n"),
     ]
 
